@@ -934,14 +934,19 @@ impl Prop for C02 {
         "C02"
     }
     fn rule(&self) -> &'static str {
-        "(batch-exec ...): the worlds of C01 (same generator, same seed: schemas x 2 datasets x ~10 accepted type-directed queries with plain/optional/fold/nested-fold/recurse edges, coercions, filters with variable/tag/imported-tag/fold-count operands, count outputs and filters); every (dataset, query) is run unbatched over the lazy table adapter and then under every schedule of the request: the 24 fixed ones (wrapper default = every resolver call pre-fetches one element; the [0,0,MAX] schedule of repro_issue_205; chunks of 4; chunks 1,2,3,4,...; pre-fetch EVERYTHING before the first output on the output side / the input side / both; lazy-then-everything; and the #205 shape 'all calls minimal, the i-th call pre-fetches everything' for i < 12) plus seeded random ones (0..24 per-call entries, each re-batching input, output or both with a random u64 digit sequence, 0, MAX, or explicit chunk sizes 0..4 then everything; exhausted schedules continue with 0 or cyclically) - quick 24+24, thorough 24+1976 per query. The answer is the unbatched rows when all schedules agree, (batch-mismatch <schedule> ...) otherwise; the Lean side answers the rows of the list-level interpreter, which does not look at the schedule. (batch-numbers ...): the same for the repo's own valid numbers test queries over the repo's NumbersAdapter. (plan ...)/(plan-numbers ...): the ownership plan (bracket sites, closures) derived in Rust from the real IRQuery must equal the Lean planOf of the rendered IR, and the real engine's adapter-call log over the lazy adapter must conform to it (calls before the first pull = root pipeline; every later burst of calls = body of one fold closure). (chunk ...): batch sizes of the chunk iterator vs the Lean chunk. A case is non-trivial (nt:) when the query has a fold (a pull-time closure exists) and the unbatched run returned rows, or for plan requests when at least one closure burst was observed. Oracle: any (batch-mismatch ...) answer - rows differ or a panic appears/disappears under some schedule."
+        "(batch-exec ...): the worlds of C01 (same generator, same seed; quick 40 schemas, thorough 120: schemas x 2 datasets x ~10 accepted type-directed queries with plain/optional/fold/nested-fold/recurse edges, coercions, filters with variable/tag/imported-tag/fold-count operands, count outputs and filters); every (dataset, query) is run unbatched over the lazy table adapter and then under every schedule of the request: the 24 fixed ones (wrapper default = every resolver call pre-fetches one element; the [0,0,MAX] schedule of repro_issue_205; chunks of 4; chunks 1,2,3,4,...; pre-fetch EVERYTHING before the first output on the output side / the input side / both; lazy-then-everything; and the #205 shape 'all calls minimal, the i-th call pre-fetches everything' for i < 12) plus seeded random ones (0..24 per-call entries, each re-batching input, output or both with a random u64 digit sequence, 0, MAX, or explicit chunk sizes 0..4 then everything; exhausted schedules continue with 0 or cyclically) - quick 24+24, thorough 24+1976 per query. The answer is the unbatched rows when all schedules agree, (batch-mismatch <schedule> ...) otherwise; the Lean side answers the rows of the list-level interpreter, which does not look at the schedule. (batch-numbers ...): the same for the repo's own valid numbers test queries over the repo's NumbersAdapter. (plan ...)/(plan-numbers ...): the ownership plan (bracket sites, closures) derived in Rust from the real IRQuery must equal the Lean planOf of the rendered IR, and the real engine's adapter-call log over the lazy adapter must conform to it (calls before the first pull = root pipeline; every later burst of calls = body of one fold closure). (chunk ...): batch sizes of the chunk iterator vs the Lean chunk. A case is non-trivial (nt:) when the query has a fold (a pull-time closure exists) and the unbatched run returned rows, or for plan requests when at least one closure burst was observed. Oracle: any (batch-mismatch ...) answer - rows differ or a panic appears/disappears under some schedule."
     }
     fn generate(&self, tier: Tier, rng: &mut Rng) -> Vec<Case> {
         let n_rand = if tier == Tier::Quick { 24 } else { 1976 };
         self.schedules_per_query.set(std_schedules().len() + n_rand);
         let mut out = vec![];
         // generated worlds FIRST: the same seed gives the worlds of C01
-        let knobs = WorldKnobs::for_tier(tier);
+        // quick: exactly the worlds of C01's quick tier; thorough: 120 schemas (x 2 datasets x ~10 queries)
+        // so that 2000 schedules per (dataset, query) stay within minutes
+        let mut knobs = WorldKnobs::for_tier(tier);
+        if tier == Tier::Thorough {
+            knobs.n_schemas = 120;
+        }
         let (worlds, stats) = match guarded(|| gen_worlds(rng, &knobs)) {
             Ok(x) => x,
             Err(info) => {
